@@ -311,7 +311,8 @@ class CancelScope(AbstractCancelScope):
             self.__host_task_cancel_calls -= 1
             if host_task.uncancel() <= self.__host_task_cancelling:
                 return True
-        return self.__cancellation_id() in exc.args
+        # Some other task.cancel() requests are still pending: this cancellation is not (only) ours.
+        return self.__cancellation_id() in exc.args and host_task.cancelling() <= self.__host_task_cancelling
 
     def __deliver_cancellation(self) -> None:
         if self.__host_task is None:
